@@ -17,6 +17,17 @@ DEEPCOPY_SELF_OK = {
 SCOPED = [DM + "treemodel._tree.Tree", DM + "treecollectionmodel.TreeList", DM + "charmatrixmodel.CharacterMatrix"]
 
 
+def _is_source_value(e):
+    """self.X / self.__dict__[k] / getattr(self, k): a raw value of the source object"""
+    if isinstance(e, ast.Subscript) and norm(e.value) == "self.__dict__":
+        return True
+    if isinstance(e, ast.Call) and call_name(e) == "getattr" and e.args and norm(e.args[0]) == "self":
+        return True
+    if isinstance(e, ast.Attribute) and norm(e.value) == "self" and not e.attr.startswith("__"):
+        return True
+    return False
+
+
 def canonical_locals(fi):
     """local name -> $n by order of first binding (source order)."""
     params = set(fi.all_params)
@@ -204,6 +215,72 @@ def run(index, rep, tier):
                 rep.check(not bad, "R12.6", f.qualname, "__deepcopy__ %s" % (bad[0][1] if bad else ""), fn_where(f, bad[0][0] if bad else None), "%s builds a new object from deep-copied state" % f.qualname,
                           "%s %s (`%s`): a deep copy of a tree / matrix then shares this object (or the mutable objects it refers to) with the original, so mutating one is visible in the other" % (f.qualname, bad[0][1] if bad else "", norm(bad[0][0])[:60] if bad else ""))
         rep.floor("R12.6", "__deepcopy__ hooks in the data model", 12, nh)
+
+    # ---- R12.7: values carried over to the copy undeepcopied
+    with rep.section("R12.7"):
+        rep.rule("R12.7", "inside __deepcopy__ a value of the source is stored on the copy only after copy.deepcopy / reconstruction; carrying a value over as it is is allowed only under an isinstance test against atomic immutable types (a tuple or frozenset can hold mutable members)")
+        ATOMIC = {"type(None)", "bool", "int", "float", "complex", "str", "bytes", "NoneType"}
+        ncarry = nstate = 0
+        for m in COPY_MODULES[:-1] + [DM + "datasetmodel"]:
+            for f in index.functions_in_module(m):
+                if f.name != "__deepcopy__" or f.cls is None or f.qualname in DEEPCOPY_SELF_OK:
+                    continue
+                # names holding a raw value of the source
+                raw = set()
+                for a in walk_no_nested(f.node):
+                    if isinstance(a, ast.Assign) and isinstance(a.targets[0], ast.Name) and _is_source_value(a.value):
+                        raw.add(a.targets[0].id)
+                    if isinstance(a, ast.For):
+                        it = norm(a.iter)
+                        if it in ("self.__dict__.items()",) and isinstance(a.target, ast.Tuple) and len(a.target.elts) == 2 and isinstance(a.target.elts[1], ast.Name):
+                            raw.add(a.target.elts[1].id)
+                newobj = {norm(a.targets[0]) for a in walk_no_nested(f.node) if isinstance(a, ast.Assign) and isinstance(a.value, ast.Call)
+                          and (call_name(a.value) == "__new__" or norm(a.value.func) == "self.__class__")} | \
+                         {norm(a.targets[0]) for a in walk_no_nested(f.node) if isinstance(a, ast.Assign) and norm(a.value) == "memo[id(self)]"}
+                cfg = None
+                for a in walk_no_nested(f.node):
+                    tgt = val = None
+                    if isinstance(a, ast.Assign):
+                        t = a.targets[0]
+                        root = t
+                        while isinstance(root, (ast.Subscript, ast.Attribute)):
+                            root = root.value
+                        if isinstance(root, ast.Name) and root.id in newobj and not isinstance(t, ast.Name):
+                            tgt, val = t, a.value
+                    elif isinstance(a, ast.Expr) and isinstance(a.value, ast.Call) and call_name(a.value) == "setattr" and len(a.value.args) == 3 and norm(a.value.args[0]) in newobj:
+                        tgt, val = a.value.args[0], a.value.args[2]
+                    if tgt is None:
+                        continue
+                    carried = (isinstance(val, ast.Name) and val.id in raw) or _is_source_value(val)
+                    nstate += 1
+                    if not carried:
+                        if any(norm(c.func) == "copy.deepcopy" for c in ast.walk(val) if isinstance(c, ast.Call)):
+                            rep.ob("R12.7", fn_where(f, a), "%s: `%s` stores a deep copy" % (f.qualname, norm_stmt(a)[:60]), True)
+                        continue
+                    ncarry += 1
+                    cfg = cfg or cfg_of(f)
+                    an = stmt_nodes(cfg, a)
+                    vtxt = norm(val)
+                    tests = [t for t in cfg.nodes if t.kind == "test" and isinstance(t.ast, ast.Call) and call_name(t.ast) == "isinstance" and len(t.ast.args) == 2 and norm(t.ast.args[0]) == vtxt]
+                    ok = False
+                    why = "no isinstance guard"
+                    if tests and an:
+                        blocked = {(t.id, "t") for t in tests}
+                        reach = cfg.reach([cfg.entry], follow_exc=False, edge_ok=lambda s_, l, d: (s_.id, l) not in blocked)
+                        guarded = all(r is not an[0] for r in reach)
+                        types = set()
+                        for t in tests:
+                            te = t.ast.args[1]
+                            if isinstance(te, ast.Name):
+                                te = f.module.assigns.get(te.id, te)
+                            types |= {norm(e) for e in (te.elts if isinstance(te, (ast.Tuple, ast.List)) else [te])}
+                        ok = guarded and types <= ATOMIC
+                        why = "the guard admits %s" % sorted(types - ATOMIC) if guarded else "the store is reachable without the guard"
+                    rep.check(ok, "R12.7", f.qualname, "source value stored on the copy without deepcopy: %s" % norm_stmt(a)[:60], fn_where(f, a),
+                              "%s: `%s` carries over atomic immutable values only" % (f.qualname, norm_stmt(a)[:50]),
+                              "%s stores a value of the source object on the copy as it is (`%s`; %s): a tuple / frozenset / arbitrary object can hold mutable members (a list inside a tuple, the (owner, attribute) pair of a bound annotation), which the copy then shares with its source - a later change to one is visible through the other" % (f.qualname, norm_stmt(a)[:70], why))
+        rep.note("R12.7: %d stores into the new object examined, %d of them carry a source value over" % (nstate, ncarry))
+        rep.floor("R12.7", "stores into the new object inside __deepcopy__ hooks", 4, nstate)
 
     # ---- R12.3
     with rep.section("R12.3"):
